@@ -1,7 +1,7 @@
 """C19 — directory hashsums identify directory content (P-tier: hashing kernel; whole-tree walk is bounded)."""
-from . import hashing
+from . import dirhash, hashing
 
 
 def build(reg):
-    specs = hashing.add_all(reg)
-    return {"verify": specs, "lemmas": [], "trusted": hashing.TRUSTED, "assumptions": ["bytes modelled as z3 strings over code points 0..255"]}
+    specs = hashing.add_all(reg) + dirhash.add_dirhash(reg)
+    return {"verify": specs, "lemmas": [], "trusted": hashing.TRUSTED + dirhash.T_DIR, "assumptions": ["bytes modelled as z3 strings over code points 0..255"]}
